@@ -3,22 +3,33 @@ import TracklibVerif.Drv.Util
 /-! Driver handler for C15 (kernel smoothing). `<sc>` is the scalar: `r` (Rat, tokens `p/q`) or
 `f` (Float, IEEE bit patterns); NaN is `nan` in signals.
 
-Kernel specification `<kspec>` (one or more tokens):
+Kernel specification `<kspec>` (one or more tokens); `<fb>` is `filterBoundary()` as 0/1, or `d` when
+`setFilterBoundary` was never called on the object (the class attribute of `Globals.initial`):
   list <weights>                      a Python list of weights
-  dirac <fb>                          DiracKernel, fb = filterBoundary() as 0/1
+  dirac <fb>                          DiracKernel
   uni <fb> <size> | tri <fb> <size> | epa <fb> <size>
                                       Uniform / Triangular / Epanechnikov kernel, function and support
                                       computed by the model
+  user <fb> <support> <values>        a user-defined kernel (`Kernel` + `setFunction`) whose function is
+                                      `values[|x|]` at the integers `|x| < len(values)` and 0 elsewhere
   fn <fb> <support> <x:fx,x:fx,…>     any other Kernel object: its function as a table evaluated by
                                       Python at the half-integers (the model computes its own sample
                                       points; a point missing from the table is a bad request)
-  int <n>                             (seq only) an integer kernel
+  int <n>                             (seq / session only) an integer kernel
+  feat <name>                         (op / seq / session only) a kernel given as the name of a feature
 `int(support)` is computed here (floor; support ≥ 1 or the model reports the error first).
+
+`<dim>`: `D` (argument omitted), `C:<FILTER_…>` (module constant), `L:<names>` (list), `S:<chars>` (a str).
+`<globals>`: the module-level state after the call, `FILTER_X=x|…|FILTER_XYZ=x.y.z;<Kernel.__filter_boundary>`.
 
 Commands:
   exec <sc> <signal> <kspec>               → ok <weight list after the call | none> <output signal> | err:<kind>
   sw <sc> <kspec>                          → ok <sliding window> | err:<kind>
-  seq <sc> <dims> <names> <signals ;> <kspec> → ok <names> <signals ;> | err:<kind> -/
+  op <sc> <af_in> <af_out> <names> <signals ;> <kspec>
+                                           → ok <weight list after the call | none> <output> <names> <signals ;> | err:<kind>
+  seq <sc> <dim> <names> <signals ;> <kspec> → ok <names> <signals ;> <globals> | err:<kind> <globals>
+  session <sc> <n> { <dim> <names> <signals ;> <m> <kspec of m tokens> }*n
+                                           → n replies of `seq` separated by ` # ` -/
 namespace TV.Drv.C15
 open TV.Filter TV.Drv
 
@@ -38,6 +49,8 @@ def showErr : Err → String
   | .index => "err:index"
   | .support => "err:support"
   | .feature => "err:feature"
+  | .emptyTrack => "err:empty-track"
+  | .nanKernel => "err:nan-kernel"
 
 section
 variable {α : Type} [Add α] [Sub α] [Mul α] [Div α] [Neg α] [LT α] [LE α] [DecidableLT α] [DecidableLE α]
@@ -61,23 +74,31 @@ def table? (sc : Sc α) (s : String) : Option (List (α × α)) :=
 
 def lookup (tbl : List (α × α)) (x : α) : Option α := (tbl.find? (fun p => p.1 == x)).map (·.2)
 
+def fb? (s : String) : Option Bool :=
+  if s == "d" then some Globals.initial.kernelFilterBoundary else bool? s
+
 def kspec? (sc : Sc α) : List String → Option (KArg α)
   | ["list", ws] => ((splitTok ws ',').mapM sc.parse).map KArg.list
-  | ["dirac", fb] => (bool? fb).map (fun b => KArg.obj true b (fun _ => 0) ((500 : Nat) : α) 500)
+  | ["dirac", fb] => (fb? fb).map (fun b => KArg.obj true b (fun _ => 0) ((500 : Nat) : α) 500)
   | ["uni", fb, size] => do
-    let b ← bool? fb
+    let b ← fb? fb
     let s ← sc.parse size
     pure (KArg.obj false b (uniformF s) (uniformSupport s) (sc.floorNat (uniformSupport s)))
   | ["tri", fb, size] => do
-    let b ← bool? fb
+    let b ← fb? fb
     let s ← sc.parse size
     pure (KArg.obj false b (triangularF s) (triangularSupport s) (sc.floorNat (triangularSupport s)))
   | ["epa", fb, size] => do
-    let b ← bool? fb
+    let b ← fb? fb
     let s ← sc.parse size
     pure (KArg.obj false b (epanechnikovF s) (epanechnikovSupport s) (sc.floorNat (epanechnikovSupport s)))
+  | ["user", fb, support, vals] => do
+    let b ← fb? fb
+    let sup ← sc.parse support
+    let tbl ← (splitTok vals ',').mapM sc.parse
+    pure (KArg.obj false b (tableF tbl) sup (sc.floorNat sup))
   | ["fn", fb, support, tbl] => do
-    let b ← bool? fb
+    let b ← fb? fb
     let sup ← sc.parse support
     let t ← table? sc tbl
     let S := sc.floorNat sup
@@ -86,6 +107,49 @@ def kspec? (sc : Sc α) : List String → Option (KArg α)
       pure (KArg.obj false b (fun x => (lookup t x).getD 0) sup S)
     else none
   | _ => none
+
+def seqArg? (sc : Sc α) : List String → Option (SeqArg α)
+  | ["int", n] => n.toInt?.map SeqArg.int
+  | ["feat", n] => if n == "t" || n == "timestamp" || n == "idx" then none else some (SeqArg.feat n)
+  | ks => (kspec? sc ks).map SeqArg.k
+
+def dim? (s : String) : Option DimArg :=
+  if s == "D" then some .default
+  else if s.startsWith "C:" then some (.const (s.drop 2).toString)
+  else if s.startsWith "L:" then some (.list (splitTok (s.drop 2).toString ','))
+  else if s.startsWith "S:" then some (.str (s.drop 2).toString)
+  else none
+
+def showGlobals (g : Globals) : String :=
+  joinWith "|" (g.filterConsts.map (fun p => p.1 ++ "=" ++ joinWith "." p.2)) ++ ";" ++ showBool g.kernelFilterBoundary
+
+def track? (sc : Sc α) (names sigs : String) : Option (Sigs α) :=
+  let ns := splitTok names ','
+  match (splitTok sigs ';').mapM (signal? sc) with
+  | some ss => if ns.length ≠ ss.length then none else some (ns.zip ss)
+  | none => none
+
+def showTrack (sc : Sc α) (t : Sigs α) : String :=
+  s!"{joinWith "," (t.map (·.1))} {joinWith ";" (t.map (fun p => showSignal sc p.2))}"
+
+def showCall (sc : Sc α) : Option (Except Err (Sigs α) × Globals) → String
+  | none => "bad-request"
+  | some (.ok t, g) => s!"ok {showTrack sc t} {showGlobals g}"
+  | some (.error e, g) => s!"{showErr e} {showGlobals g}"
+
+/-- the steps of a `session` request -/
+def calls? (sc : Sc α) : Nat → List String → Option (List (Call α))
+  | 0, [] => some []
+  | 0, _ => none
+  | n + 1, dim :: names :: sigs :: m :: rest => do
+    let d ← dim? dim
+    let t ← track? sc names sigs
+    let m ← m.toNat?
+    if rest.length < m then none
+    let k ← seqArg? sc (rest.take m)
+    let cs ← calls? sc n (rest.drop m)
+    pure (⟨t, k, d⟩ :: cs)
+  | _, _ => none
 
 def handleSc (sc : Sc α) (cmd : String) (args : List String) : String :=
   match cmd, args with
@@ -104,19 +168,39 @@ def handleSc (sc : Sc α) (cmd : String) (args : List String) : String :=
       | .ok w => s!"ok {showList sc.shw w}"
       | .error e => showErr e
     | _ => "bad-request"
-  | "seq", dims :: names :: sigs :: ks =>
-    let karg : Option (SeqArg α) := match ks with
-      | ["int", n] => n.toInt?.map SeqArg.int
-      | _ => (kspec? sc ks).map SeqArg.k
-    let ns := splitTok names ','
-    match karg, (splitTok sigs ';').mapM (signal? sc) with
-    | some k, some ss =>
-      if ns.length ≠ ss.length then "bad-request"
-      else
-        match filterSeq (ns.zip ss) k (splitTok dims ',') with
-        | .ok t => s!"ok {joinWith "," (t.map (·.1))} {joinWith ";" (t.map (fun p => showSignal sc p.2))}"
+  | "op", afIn :: afOut :: names :: sigs :: ks =>
+    match seqArg? sc ks, track? sc names sigs with
+    | some k, some t =>
+      let src : Option (KSrc α) := match k with
+        | .k a => some (.arg a)
+        | .feat n => some (.feat n)
+        | .int _ => none
+      match src with
+      | none => "bad-request"
+      | some src =>
+        match operate t afIn src afOut with
+        | .ok (k', out, t') =>
+          let kafter := match k' with
+            | .arg (.list l) => showList sc.shw l
+            | _ => "none"
+          s!"ok {kafter} {showSignal sc out} {showTrack sc t'}"
         | .error e => showErr e
     | _, _ => "bad-request"
+  | "seq", dim :: names :: sigs :: ks =>
+    match seqArg? sc ks, track? sc names sigs, dim? dim with
+    | some k, some t, some d => showCall sc (filterSeqCall Globals.initial t k d)
+    | _, _, _ => "bad-request"
+  | "smooth", names :: sigs :: ks =>
+    match kspec? sc ks, track? sc names sigs with
+    | some (KArg.obj false _ f sup S), some t => showCall sc (smooth Globals.initial t f sup S)
+    | _, _ => "bad-request"
+  | "session", n :: rest =>
+    match n.toNat? with
+    | none => "bad-request"
+    | some n =>
+      match calls? sc n rest with
+      | none => "bad-request"
+      | some cs => joinWith " # " ((session Globals.initial cs).map (showCall sc))
   | _, _ => "bad-request"
 end
 
